@@ -641,6 +641,10 @@ func Run(cfg hx.Config) error {
 		runtime.GOMAXPROCS(old)
 		r.Count(fmt.Sprintf("free:gomaxprocs=%d", procs))
 	}
+	replayAbandonedWaiter(r)
+	// which lock source libindex.New / libvuln.New / updater.New end up with
+	r.Op("reset", "ok", false)
+	selection(r)
 	// the callers of the lock sources: Libindex.Index, Manager.Run, Updater.Run
 	ncall := cfg.N(60, 1500)
 	modes := []string{"index", "manager", "updater"}
@@ -651,6 +655,14 @@ func Run(cfg hx.Config) error {
 		runtime.GOMAXPROCS(old)
 	}
 	r.Notes["caller_scenarios_per_mode"] = ncall
+	nfreeIdx := cfg.N(20, 600)
+	for i := 0; i < nfreeIdx && !r.Stop(); i++ {
+		procs := 1 + rnd.Intn(16)
+		old := runtime.GOMAXPROCS(procs)
+		callerFreeRun(r, rnd, 2+rnd.Intn(14), 5+rnd.Intn(25))
+		runtime.GOMAXPROCS(old)
+	}
+	r.Notes["index_free_runs"] = nfreeIdx
 	time.Sleep(50 * time.Millisecond)
 	if after := runtime.NumGoroutine(); after > before+2 {
 		r.Fail("", fmt.Sprintf("goroutines-leaked before=%d after=%d", before, after))
